@@ -31,15 +31,44 @@ NONSTR = {
 }
 
 
-def _truthy(f):
+def _truthy(f, value=True):
     def __bool__(self):
         f(self)
-        return True
+        return value
     for a in ("_pyroExposed", "_pyroOneway"):
         if hasattr(f, a):
             setattr(__bool__, a, getattr(f, a))
-    __bool__.__name__ = f.__name__
+    __bool__.__name__ = getattr(f, "__name__", "__bool__")      # (a helper instance / class stored under __bool__ has no / another name)
     return __bool__
+
+
+LAZY_EXC = {"RuntimeError": RuntimeError, "AttributeError": AttributeError, "KeyError": KeyError, "OSError": OSError}
+
+
+class _Lazy:
+    """value of a plain class attribute that is resolved lazily: a non-data descriptor.  While armed, the first `n` accesses
+    *through the class* (what the member-list computation does) either raise ("raise": the resource is not ready yet) or park
+    until released ("conc": a slow first computation, so that a second connection can ask for the member list meanwhile).
+    Apart from that it is a plain data value (42): unexposed, never advertised, never served.  It logs nothing: it is not code of
+    the target object's exposed or unexposed *members*."""
+
+    def __init__(self, spec):
+        self.mode = spec.get("mode", "raise")
+        self.left = int(spec.get("n", 1))
+        self.exc = LAZY_EXC.get(spec.get("exc"), RuntimeError)
+        self.armed = False
+        self.signal = None
+        self.release = threading.Event()
+
+    def __get__(self, inst, owner):
+        if self.armed and inst is None and self.left > 0:
+            if self.mode == "raise":
+                self.left -= 1
+                raise self.exc("c02: lazily resolved class attribute is not ready yet")
+            self.left = 0               # only the very first access is slow
+            self.signal.set()
+            self.release.wait(120)      # (released by the harness as soon as the second request was answered; no timing involved)
+        return 42
 
 
 class MetadataFailed(Exception):
@@ -94,6 +123,8 @@ class Real:
         self.prior = None
         self.prior_state = None
         self.serial = 0
+        self.lazies, self._new_lazies = [], []
+        self.first_failed, self.first_other = 0, None
         # a oneway call of a non-callable dies inside its thread (by design nothing is reported to the client); keep stderr clean
         self._excepthook = threading.excepthook
         threading.excepthook = lambda args: None
@@ -117,6 +148,12 @@ class Real:
             def f(self, *a, **k):
                 log.append(fid)
                 return fid
+        if fd.get("falsy"):
+            inner = f
+
+            def f(*a, **k):         # __len__ -> 0 / __bool__ -> False: an object that is falsy (empty container, idle job)
+                inner(*a, **k)
+                return 0
         f.__name__ = fd["name"]
         f.__qualname__ = "C02." + fd["name"]
         if fd["oneway"]:
@@ -127,6 +164,10 @@ class Real:
 
     def _val(self, v):
         if v["v"] == "data":
+            if v.get("lazy"):
+                lz = _Lazy(v["lazy"])
+                self._new_lazies.append(lz)
+                return lz
             return 42
         if v["v"] == "fn":
             return self._fn(v["f"], "static")      # a plain function object stored as a value: called without self
@@ -175,7 +216,8 @@ class Real:
             for key, m in c["members"]:
                 ns[key] = self._member(m)
             if callable(ns.get("__bool__")) and not isinstance(ns["__bool__"], (staticmethod, classmethod)):
-                ns["__bool__"] = _truthy(ns["__bool__"])        # truth testing must return a bool; the effect is still logged
+                falsy = any(k == "__bool__" and m["k"] == "func" and m["f"].get("falsy") for k, m in c["members"])
+                ns["__bool__"] = _truthy(ns["__bool__"], not falsy)        # truth testing must return a bool; the effect is still logged
             cls = type(names[i], (cls,) if cls else (), ns)
             if c["expose"]:
                 cls = self.server.expose(cls)
@@ -211,6 +253,9 @@ class Real:
                 if not prior.get("keep"):
                     self.daemon.unregister("c02prior")
             del self.log[:]
+        self._new_lazies = []
+        self.lazies = []
+        self.first_failed, self.first_other = 0, None
         try:
             cls, obj, classes = self._materialise(shape, names)
         except AttributeError as x:
@@ -219,6 +264,7 @@ class Real:
             return "priv" if str(x).startswith("exposing private names") else "attr"
         del self.log[:]
         self.cls, self.obj, self.classes = cls, obj, classes
+        self.lazies = self._new_lazies
         # how the object is registered: the instance (strongly / weakly: the daemon then holds a weakref, we keep the object alive),
         # or the class (the daemon creates an instance per connection; instance attributes of the description do not apply)
         if reg == "weak":
@@ -301,12 +347,13 @@ class Real:
             return msgpack.packb((object_id, method, list(vargs), kwargs), use_bin_type=True)
         return self.sers[ser].dumpsCall(object_id, method, vargs, kwargs)
 
-    def raw(self, object_id, flags, method, vargs, kwargs=None, ser="serpent"):
+    def raw(self, object_id, flags, method, vargs, kwargs=None, ser="serpent", seq=None):
         """send one MSG_INVOKE, return (kind, value): ('result', v) | ('error', exc) | ('none', None) | ('raised', exc)"""
         P = self.protocol
-        self.seq = (self.seq + 1) & 0xFFFF
+        if seq is None:
+            self.seq = seq = (self.seq + 1) & 0x7FFF
         data = self._payload(ser, object_id, method, vargs, kwargs or {})
-        msg = P.SendingMessage(P.MSG_INVOKE, flags, self.seq, self.sers[ser].serializer_id, data)
+        msg = P.SendingMessage(P.MSG_INVOKE, flags, seq, self.sers[ser].serializer_id, data)
         conn = FakeConn(msg.data, self.errors)
         raised = None
         try:
@@ -320,7 +367,7 @@ class Real:
             return ("raised", raised) if raised is not None else ("none", None)
         rconn = FakeConn(bytes(conn.sent), self.errors)
         reply = P.recv_stub(rconn, [P.MSG_RESULT])
-        if reply.seq != self.seq or rconn.pos != len(rconn.inbuf):
+        if reply.seq != seq or rconn.pos != len(rconn.inbuf):
             return ("garbled", None)
         if reply.flags & P.FLAGS_EXCEPTION:
             return ("error", self.sers[ser].loads(reply.data))
@@ -367,12 +414,64 @@ class Real:
             return "error:index"
         return "error:other:" + type(value).__name__
 
-    def metadata(self, oid="c02target"):
+    def first_metadata(self):
+        """the first advertisement(s) of the freshly registered object.  If a class attribute of the shape is resolved lazily
+        (`_Lazy`), the first computation(s) of the member list fail part-way (each failed request is repeated; `first_failed`
+        counts them) or a second request is made while the first one is parked inside the computation (`first_other` = what the
+        parked one was finally told).  Returns the member list of the first request that was answered with one."""
+        self.first_failed, self.first_other = 0, None
+        lazies = [lz for lz in self.lazies if lz.left > 0]
+        if not lazies:
+            return self.metadata()
+        signal = threading.Event()
+        for lz in lazies:
+            lz.signal = signal
+            lz.armed = True
+        box = {}
+        t = None
+        try:
+            if any(lz.mode == "conc" for lz in lazies):
+                def first():
+                    try:
+                        box["md"] = self._first_loop(lazies, seq=0x8001)
+                    except MetadataFailed as x:
+                        box["err"] = x
+                    finally:
+                        signal.set()
+                t = threading.Thread(target=first, name="c02-first-connect", daemon=True)
+                t.start()
+                signal.wait(120)        # the first request is parked inside the computation, or over
+            md = self._first_loop(lazies)
+        finally:
+            for lz in lazies:
+                lz.release.set()
+            if t is not None:
+                t.join(120)
+            for lz in lazies:
+                lz.armed = False
+        if t is not None:
+            if "err" in box:
+                raise box["err"]
+            self.first_other = box.get("md")
+        return md
+
+    def _first_loop(self, lazies, seq=None):
+        budget = sum(int(lz.left) for lz in lazies) + 1
+        last = None
+        for _ in range(budget):
+            try:
+                return self.metadata(seq=seq)
+            except MetadataFailed as x:
+                self.first_failed += 1
+                last = x
+        raise last
+
+    def metadata(self, oid="c02target", seq=None):
         """DaemonObject.get_metadata through a raw INVOKE on the daemon's own object"""
         from Pyro5 import core
         with warnings.catch_warnings():
             warnings.simplefilter("ignore")
-            kind, value = self.raw(core.DAEMON_NAME, 0, "get_metadata", [oid])
+            kind, value = self.raw(core.DAEMON_NAME, 0, "get_metadata", [oid], seq=seq)
         if kind != "result":
             raise MetadataFailed("get_metadata(%s) answered %s %r" % (oid, kind, value))
         return {k: sorted(value[k]) for k in ("methods", "oneway", "attrs")}
